@@ -36,15 +36,17 @@ def generate(rng, tier):
         elif m == 1:
             cases.append([sc.gen_shared_equal, sc.gen_relay2, sc.gen_two_relays, sc.gen_pull_ring, sc.gen_lookahead, sc.gen_ring_mixed, sc.gen_relay_twice][(i // 10) % 7](rng))
         elif m < 5:
-            cases.append(sc.gen_dag(rng))
+            cases.append(sc.gen_dag(rng) if i % 3 else sc.with_listeners(rng, sc.gen_dag(rng)))
         elif m < 9:
-            cases.append(sc.gen_ring(rng, sufficient=True))
+            cases.append(sc.gen_ring(rng, sufficient=True) if i % 3 else sc.with_listeners(rng, sc.gen_ring(rng, sufficient=True)))
         else:
             cases.append(sc.gen_ring(rng))
     for _ in range(30 if tier == "quick" else 800):
         cases.append(sc.gen_sparse(rng))
     for _ in range(10 if tier == "quick" else 200):
         cases.append(sc.gen_ctrl_step(rng))   # step switched from outside (monitor only)
+    for _ in range(16 if tier == "quick" else 300):
+        cases.append(sc.gen_push_merger(rng))  # a push-based component with outputs in between (monitor only)
     # finam's own components with timedelta / calendar steps (monitor only)
     for _ in range(16 if tier == "quick" else 300):
         cases.append(bf.gen_builtin(rng))
@@ -54,7 +56,7 @@ def generate(rng, tier):
 def monitor(case, obs):
     if "builtin" in case:
         return bf.monitor_builtin(case, obs)
-    if sc.has_ctrl(case):
+    if sc.has_ctrl(case) or sc.has_push_comp(case):
         return c01.monitor(case, obs)   # the announced time is the time of the update: no pull beyond what is published
     comps = case["comps"]
     if obs["phase"] != "run":
@@ -108,7 +110,7 @@ classifiers = c01.classifiers
 
 
 def model_applies(case):
-    return "builtin" not in case and not sc.has_ctrl(case)
+    return "builtin" not in case and not sc.has_ctrl(case) and not sc.has_push_comp(case)
 
 
 def run_impl(case):
@@ -118,7 +120,7 @@ def run_impl(case):
 
 
 def shrink_candidates(case):
-    if "builtin" in case:
+    if "builtin" in case or sc.has_push_comp(case):
         return
     yield from sc.shrink_candidates(case)
 
